@@ -485,6 +485,12 @@ func init() {
 				return 11
 			}
 			return 9
-		}, Run: run, Replay: replay, Parallel: true}},
+		}, Run: run, Replay: replay, Parallel: true},
+			{Name: "environment", Shards: func(t string) int {
+				if t == "thorough" {
+					return 4
+				}
+				return 3
+			}, Run: runEnv, Replay: replayEnv, Parallel: true}},
 	})
 }
